@@ -15,6 +15,7 @@ use vrp_core::models::problem::{
 };
 use vrp_core::models::solution::{Route, Tour};
 use vrp_pragmatic::format::problem::{PragmaticProblem, create_approx_matrices, deserialize_problem};
+use vrp_pragmatic::format::{CoordIndexExtraProperty, Location as ApiLocation};
 use vrp_verif_harness::*;
 
 /// S28 switch: `false` while `fleet_reader::create_transport_costs` maps an unknown matrix profile name by its list
@@ -211,7 +212,12 @@ fn error_codes(e: &vrp_pragmatic::format::MultiFormatError) -> Value {
 
 fn exec_prag(case: &Value) -> Value {
     let locs: Vec<u64> = case["locs"].as_array().unwrap().iter().map(|l| l.as_u64().unwrap()).collect();
-    let jobs: Vec<Value> = locs.iter().enumerate().map(|(i, l)| job_json(i, json!({"index": l}))).collect();
+    let mut jobs: Vec<Value> = locs.iter().enumerate().map(|(i, l)| job_json(i, json!({"index": l}))).collect();
+    let with_unknown = case["unk"].as_bool().unwrap_or(false);
+    if with_unknown {
+        // a job at a location of the custom `unknown` type (no reference into the matrix)
+        jobs.push(job_json(locs.len(), json!({"type": "unknown"})));
+    }
     let vs = case["vs"].as_array().unwrap();
     let vehicles: Vec<Value> =
         vs.iter().enumerate().map(|(i, v)| vehicle_json(i, v, json!({"index": locs[0]}))).collect();
@@ -257,7 +263,24 @@ fn exec_prag(case: &Value) -> Value {
                 .iter()
                 .map(|q| query(problem.transport.as_ref(), &routes[q["v"].as_u64().unwrap() as usize], q))
                 .collect();
-            json!({"size": problem.transport.size(), "rs": rs})
+            let mut out = json!({"size": problem.transport.size(), "rs": rs});
+            if with_unknown {
+                // the index the unknown location got, and what vehicle 0 sees between it and every matrix index
+                let idx = problem
+                    .extras
+                    .get_coord_index()
+                    .and_then(|ci| ci.get_by_loc(&ApiLocation::new_unknown()))
+                    .expect("index of the unknown location");
+                let n = problem.transport.size();
+                let probe = |f: usize, t: usize| {
+                    let q = json!({"f": f, "t": t, "at": [0, 1], "arr": false});
+                    query(problem.transport.as_ref(), &routes[0], &q)
+                };
+                let to: Vec<Value> = (0..n).map(|i| probe(i, idx)).collect();
+                let from: Vec<Value> = (0..n).map(|i| probe(idx, i)).collect();
+                out["unk"] = json!({"idx": idx, "to": to, "from": from, "self": probe(idx, idx)});
+            }
+            out
         }
     }
 }
@@ -866,6 +889,13 @@ fn gen_prag(rng: &mut Rng) -> Value {
         queries(rng, n, &vps, &info, 5)
     };
     let mut case = json!({"k": "prag", "profiles": profiles, "vs": vs, "locs": locs, "ms": ms, "qs": qs});
+    if !broken && rng.chance(1, 4) {
+        case["unk"] = json!(true);
+        if (locs.len() as u64) < locs.iter().max().unwrap() + 1 {
+            // D3: with sparse matrix indices the unknown location is given an index inside the matrix
+            dev = json!("D3");
+        }
+    }
     if !dev.is_null() {
         case["dev"] = dev.clone();
         if dev != "S28" || !S28_FIXED {
